@@ -245,7 +245,8 @@ Proof.
         split; [intros _; reflexivity|intros [E|[E|E]]; subst k; destruct E12 as [E12|E12]; discriminate].
       - destruct C as [C|(ts' & Hin & Hc)]; [left; exact C|right; exists ts'; split; [right; exact Hin|exact Hc]]. }
     destruct (k =? 3) eqn:E3.
-    { destruct (Tail _ _ H) as (A & B & C). split; [|split; [exact B|]].
+    { destruct v as [ts|ok| |]; try discriminate.
+      destruct (Tail _ _ H) as (A & B & C). split; [|split; [exact B|]].
       - intros k0 v0 [E|Hin]; [injection E as <- <-|exact (A k0 v0 Hin)]. apply Z.eqb_eq in E3. subst k.
         split; [unfold known_opt; lia|]. split; [exact Hns|]. split; [intros E; discriminate|].
         split; [intros [E|E]; discriminate|intros [E|[E|E]]; discriminate].
